@@ -44,6 +44,29 @@ pub mod _benchable {
     pub use super::iter::Bytes;
 }
 
+// Verification hook (H1): scanner backends and byte-class predicates for the
+// checks under /verif. Compiled only with `--cfg httparse_verif`.
+#[cfg(httparse_verif)]
+#[doc(hidden)]
+#[allow(missing_docs)]
+pub mod _verif {
+    pub use super::iter::Bytes;
+    pub use super::simd::verif as simd;
+
+    pub fn is_uri_token(b: u8) -> bool {
+        super::is_uri_token(b)
+    }
+    pub fn is_header_name_token(b: u8) -> bool {
+        super::is_header_name_token(b)
+    }
+    pub fn is_header_value_token(b: u8) -> bool {
+        super::is_header_value_token(b)
+    }
+    pub fn is_method_token(b: u8) -> bool {
+        super::is_method_token(b)
+    }
+}
+
 /// Determines if byte is a method token char.
 ///
 /// > ```notrust
